@@ -15,7 +15,7 @@
 import ScalesModel.Adapter.E2E
 import ScalesModel.Adapter.TagPool
 import ScalesModel.Adapter.FrontEnd
-import ScalesModel.Proofs.MuxTimeoutLemmas
+import ScalesModel.Proofs.MuxWriteLemmas
 import ScalesModel.Adapter.SerialC12
 import ScalesModel.Props.C07
 import ScalesModel.Proofs.LBGate
@@ -164,7 +164,24 @@ theorem C12_mux_fired_stays (fl : Flavour) (max : Nat) (s : St) (op : Op) (rid :
           · exact SameEv.set _ _ r0 _ hr0 (fun h => h)
           · exact SameEv.refl _
         · exact SameEv.refl _
-    | send => exact sameEv_send s
+    | send =>
+      simp only [stepOp]
+      split
+      · exact SameEv.refl _
+      · exact sameEv_send s
+    | wbegin =>
+      simp only [stepOp, stepWBegin]
+      split
+      · exact SameEv.refl _
+      · split
+        · exact SameEv.refl _
+        · exact sameEv_send s
+    | wend =>
+      simp only [stepOp, stepWEnd]
+      split <;> exact SameEv.refl _
+    | quiet =>
+      simp only [stepOp, stepQuiet]
+      split <;> exact SameEv.refl _
     | process mt t =>
       cases fl with
       | thriftmux => exact sameEv_process s mt t
@@ -198,7 +215,7 @@ open Scales.TagPool in
 theorem C12_mux_model_satisfies_spec (cfg : Cfg) (ops : List Op) (hc : cfgWF cfg = true)
     (ho : opsOk cfg St.init ops = true) : comp.spec cfg (comp.modelTrace cfg ops) = .ok := by
   simp only [cfgWF, decide_eq_true_eq] at hc
-  exact spec12_trace cfg hc ops {} St.init 0 (Inv_init cfg hc) (Inv12_init cfg) ho
+  exact spec12_trace cfg hc ops {} St.init 0 (Inv_init cfg hc) (Inv12_init cfg) (InvM_init cfg) ho
 
 open Scales.TagPool in
 /-- **No transmission after the time-out.**  Once the deadline event of request `rid` has fired,
@@ -383,6 +400,237 @@ theorem C12_mux_discard_exactly_once (cfg : Cfg) (ops : List Op) (hc : cfgWF cfg
   have := discard_accounting t h2 (accAfter {} h1) hno hok
   simp only [owedAfter, accAfter_append]
   exact this
+
+/-! ### the write as a yield point
+
+  `self._socket.write(payload)` is the one place inside an iteration of `_SendLoop` at which the
+  greenlet can be parked (slow peer).  `wbegin` is the iteration up to the issue of a write call
+  that blocks — from then on the frame counts as written, the peer may already hold a prefix of
+  it — and `wend` is that call returning; every other step can happen in between.  The deadline
+  subscription is made *before* the call is issued, so a deadline that expires while the call is
+  blocked finds it: the caller gets its TimeoutError, the time-out callback queues a Tdiscarded
+  behind the frame being written, and the send loop writes it once the write has returned. -/
+
+open Scales.TagPool in
+/-- Function level: when the send loop blocks in the write of a request frame, the loop is
+    parked, and a request whose deadline is still pending is subscribed to its deadline event
+    (`_HandleTimeout` ran before `write` was called). -/
+theorem C12_mux_blocked_write_is_subscribed (s : St) (t rid : Nat)
+    (hf : (⟨.req, t, rid⟩ : Frame) ∈ (stepWBegin s).2.wrote) :
+    (stepWBegin s).1.writing = true ∧
+    ∃ r, (stepWBegin s).1.reqs[rid]? = some r ∧ r.ev ≠ .fired ∧ (r.ev = .unfired → r.sub = true) := by
+  unfold stepWBegin at hf ⊢
+  by_cases hw : s.writing = true
+  · simp [hw] at hf
+  · simp only [hw] at hf ⊢
+    cases he : (stepSend s).2.wrote.isEmpty with
+    | true => simp [he] at hf
+    | false =>
+      simp only [he, if_false, Bool.false_eq_true] at hf ⊢
+      refine ⟨by trivial, ?_⟩
+      show ∃ r, (stepSend s).1.reqs[rid]? = some r ∧ r.ev ≠ .fired ∧ (r.ev = .unfired → r.sub = true)
+      clear he hw
+      unfold stepSend at hf ⊢
+      cases hq : s.sendq with
+      | nil => simp [hq] at hf
+      | cons i q =>
+        cases i with
+        | ping => simp [hq] at hf
+        | discard w => simp [hq] at hf
+        | req rid' t' =>
+          simp only [hq] at hf ⊢
+          cases hr : s.reqs[rid']? with
+          | none => simp [hr] at hf
+          | some r =>
+            simp only [hr] at hf ⊢
+            cases hk : r.key with
+            | answered => simp [hk] at hf
+            | tag k =>
+              simp only [hk] at hf ⊢
+              cases hev : r.ev with
+              | fired => simp [hev] at hf
+              | unfired =>
+                simp only [hev, List.mem_singleton, Frame.mk.injEq, true_and] at hf ⊢
+                obtain ⟨_, e⟩ := hf; subst e
+                exact ⟨_, set_self hr _, by simp, fun _ => rfl⟩
+              | noev =>
+                simp only [hev, List.mem_singleton, Frame.mk.injEq, true_and] at hf ⊢
+                obtain ⟨_, e⟩ := hf; subst e
+                exact ⟨r, hr, by simp [hev], fun h => by rw [hev] at h; cases h⟩
+            | absent =>
+              simp only [hk] at hf ⊢
+              cases hev : r.ev with
+              | fired => simp [hev] at hf
+              | unfired =>
+                simp only [hev, List.mem_singleton, Frame.mk.injEq, true_and] at hf ⊢
+                obtain ⟨_, e⟩ := hf; subst e
+                exact ⟨_, set_self hr _, by simp, fun _ => rfl⟩
+              | noev =>
+                simp only [hev, List.mem_singleton, Frame.mk.injEq, true_and] at hf ⊢
+                obtain ⟨_, e⟩ := hf; subst e
+                exact ⟨r, hr, by simp [hev], fun h => by rw [hev] at h; cases h⟩
+
+open Scales.TagPool in
+/-- Function level: the deadline of a written request expires while the send loop is parked in a
+    write (of this request's frame or of another one): the time-out callback queues a Tdiscarded
+    naming the tag behind whatever waits, and the loop stays parked. -/
+theorem C12_mux_expiry_during_write_queues_discard (s : St) (rid t : Nat) (r : Req) (hw : s.writing = true)
+    (hr : s.reqs[rid]? = some r) (hfired : r.ev = .fired) (hsub : r.sub = true) (hkey : r.key = .tag t) :
+    (stepNotify s rid).1.sendq = s.sendq ++ [.discard t] ∧ (stepNotify s rid).1.writing = true ∧
+    (stepNotify s rid).2.res = .ok := by
+  simp [stepNotify, hr, hfired, hsub, hkey, hw]
+
+open Scales.TagPool in
+/-- **A request that was written — or whose write was in progress — when its caller got
+    TimeoutError is discarded** (ThriftMux), stated on what caller and peer see only.
+    The write call for request `rid`'s frame with tag `t` was issued in step `opw` (an iteration
+    that completed, `send`, or one that blocks, `wbegin`); later, on the same connection and
+    with no frame of the peer on tag `t` in between, the deadline event of `rid` fires (`fire rid`:
+    the caller is handed TimeoutError).  Then at the first moment afterwards at which nothing is
+    runnable, the send queue is empty and no write is in progress (`quiet`), a Tdiscarded naming
+    `t` has been written since the deadline fired — unless the peer answered `t` meanwhile. -/
+theorem C12_mux_timed_out_written_is_discarded (cfg : Cfg) (ops : List Op) (hc : cfgWF cfg = true)
+    (ho : opsOk cfg St.init ops = true) (h1 h2 h3 h4 : List (Op × Obs)) (opw : Op) (ow : Obs) (rid t : Nat)
+    (o2 o : Obs)
+    (htr : comp.modelTrace cfg ops = h1 ++ (opw, ow) :: (h2 ++ (.fire rid, o2) :: (h3 ++ (.quiet, o) :: h4)))
+    (hfl : cfg.fl = .thriftmux)
+    (hw : (⟨.req, t, rid⟩ : Frame) ∈ ow.wrote) (hopw : opw ≠ .reopen)
+    (hno : ∀ p ∈ h2 ++ (Op.fire rid, o2) :: h3, p.1 ≠ .reopen)
+    (hna : ∀ p ∈ h2 ++ (Op.fire rid, o2) :: h3, ∀ m, p.1 ≠ .process m t)
+    (hq : o.qlen = 0)
+    (hidle : writeInProgress (h1 ++ (opw, ow) :: (h2 ++ (Op.fire rid, o2) :: h3)) = false) :
+    ∃ p ∈ (Op.fire rid, o2) :: h3, ∃ f ∈ p.2.wrote, f.kind = .discard ∧ f.arg = t := by
+  have hs := C12_mux_model_satisfies_spec cfg ops hc ho
+  have e : h1 ++ (opw, ow) :: (h2 ++ (Op.fire rid, o2) :: (h3 ++ (Op.quiet, o) :: h4))
+      = (h1 ++ (opw, ow) :: (h2 ++ (Op.fire rid, o2) :: h3)) ++ (Op.quiet, o) :: h4 := by simp
+  rw [htr, e] at hs
+  have hM := specGo12_splitM cfg _ {} 0 .quiet o h4 hs
+  -- at the quiet point nothing is due
+  have hend := specObsM_quiet_ok cfg _ _ o hM hfl hq hidle
+  -- the accumulator along the history
+  have e2 : h1 ++ (opw, ow) :: (h2 ++ (Op.fire rid, o2) :: h3)
+      = h1 ++ ([(opw, ow)] ++ (h2 ++ ([(Op.fire rid, o2)] ++ h3))) := by simp
+  rw [e2, accAfter_append, accAfter_append, accAfter_append, accAfter_append] at hend
+  have hno2 : ∀ p ∈ h2, p.1 ≠ .reopen := fun p hp => hno p (List.mem_append_left _ hp)
+  have hno3 : ∀ p ∈ h3, p.1 ≠ .reopen := fun p hp => hno p (List.mem_append_right _ (List.mem_cons_of_mem _ hp))
+  have hna2 : ∀ p ∈ h2, ∀ m, p.1 ≠ .process m t := fun p hp => hna p (List.mem_append_left _ hp)
+  have hna3 : ∀ p ∈ h3, ∀ m, p.1 ≠ .process m t :=
+    fun p hp => hna p (List.mem_append_right _ (List.mem_cons_of_mem _ hp))
+  -- the frame is among the written, unanswered ones when the deadline fires
+  have hpair : (t, rid) ∈ reqPairs ow.wrote := by
+    simp only [reqPairs, List.mem_map, List.mem_filter]
+    exact ⟨⟨.req, t, rid⟩, ⟨hw, rfl⟩, rfl⟩
+  have hu1 : (t, rid) ∈ (accAfter (accAfter {} h1) [(opw, ow)]).unans := by
+    simp only [accAfter, List.foldl_cons, List.foldl_nil]
+    cases opw with
+    | reopen => exact absurd rfl hopw
+    | process m t' => rw [after_pairs_process]; exact List.mem_append_right _ hpair
+    | req e p' => rw [after_pairs_other _ _ _ (by simp) (by simp)]; exact List.mem_append_right _ hpair
+    | fire r' => rw [after_pairs_other _ _ _ (by simp) (by simp)]; exact List.mem_append_right _ hpair
+    | send => rw [after_pairs_other _ _ _ (by simp) (by simp)]; exact List.mem_append_right _ hpair
+    | notify r' => rw [after_pairs_other _ _ _ (by simp) (by simp)]; exact List.mem_append_right _ hpair
+    | ping => rw [after_pairs_other _ _ _ (by simp) (by simp)]; exact List.mem_append_right _ hpair
+    | wbegin => rw [after_pairs_other _ _ _ (by simp) (by simp)]; exact List.mem_append_right _ hpair
+    | wend => rw [after_pairs_other _ _ _ (by simp) (by simp)]; exact List.mem_append_right _ hpair
+    | quiet => rw [after_pairs_other _ _ _ (by simp) (by simp)]; exact List.mem_append_right _ hpair
+  have hu2 := unans_persist (t, rid) h2 _ hno2 hna2 hu1
+  have toFrame : ∀ (p : Op × Obs), t ∈ discTags p.2.wrote → ∃ f ∈ p.2.wrote, f.kind = .discard ∧ f.arg = t := by
+    intro p hp
+    simp only [discTags, List.mem_map, List.mem_filter, beq_iff_eq] at hp
+    obtain ⟨f, ⟨hf, hk⟩, ha⟩ := hp
+    exact ⟨f, hf, hk, ha⟩
+  by_cases hd : t ∈ discTags o2.wrote
+  · exact ⟨(Op.fire rid, o2), by simp, toFrame _ hd⟩
+  · -- the firing makes `t` due
+    have hdue : t ∈ (accAfter (accAfter (accAfter (accAfter {} h1) [(opw, ow)]) h2) [(Op.fire rid, o2)]).must := by
+      simp only [accAfter, List.foldl_cons, List.foldl_nil]
+      rw [after_must]
+      simp only [mustAfter]
+      refine mem_dropDiscarded.mpr ⟨List.mem_append_right _ ?_, hd⟩
+      simp only [tagsOf, List.mem_map, List.mem_filter, beq_iff_eq]
+      exact ⟨(t, rid), ⟨hu2, rfl⟩, rfl⟩
+    have hgone : t ∉ (accAfter (accAfter (accAfter (accAfter (accAfter {} h1) [(opw, ow)]) h2)
+        [(Op.fire rid, o2)]) h3).must := by rw [hend]; simp
+    obtain ⟨p, hp, hpd⟩ := must_consumed t h3 _ hno3 hna3 hdue hgone
+    exact ⟨p, List.mem_cons_of_mem _ hp, toFrame p hpd⟩
+
+open Scales.TagPool in
+/-- **The deadline expires while the request's frame is being written.**  The send loop blocked
+    in the write of request `rid`'s frame (`wbegin`), the write has not returned (`h2` contains no
+    `wend`) when the deadline event of `rid` fires.  The write is indeed still in progress at that
+    moment, and — the frame does go out — a Tdiscarded naming its tag has been written by the
+    first idle moment after the write returned (same side conditions as above). -/
+theorem C12_mux_timeout_during_write_is_discarded (cfg : Cfg) (ops : List Op) (hc : cfgWF cfg = true)
+    (ho : opsOk cfg St.init ops = true) (h1 h2 h3 h4 : List (Op × Obs)) (ow : Obs) (rid t : Nat) (o2 o : Obs)
+    (htr : comp.modelTrace cfg ops = h1 ++ (.wbegin, ow) :: (h2 ++ (.fire rid, o2) :: (h3 ++ (.quiet, o) :: h4)))
+    (hfl : cfg.fl = .thriftmux)
+    (hw : (⟨.req, t, rid⟩ : Frame) ∈ ow.wrote)
+    (hblocked : ∀ p ∈ h2, p.1 ≠ .wend)
+    (hno : ∀ p ∈ h2 ++ (Op.fire rid, o2) :: h3, p.1 ≠ .reopen)
+    (hna : ∀ p ∈ h2 ++ (Op.fire rid, o2) :: h3, ∀ m, p.1 ≠ .process m t)
+    (hq : o.qlen = 0)
+    (hidle : writeInProgress (h1 ++ (Op.wbegin, ow) :: (h2 ++ (Op.fire rid, o2) :: h3)) = false) :
+    writeInProgress (h1 ++ (Op.wbegin, ow) :: h2) = true ∧
+    ∃ p ∈ (Op.fire rid, o2) :: h3, ∃ f ∈ p.2.wrote, f.kind = .discard ∧ f.arg = t := by
+  refine ⟨?_, C12_mux_timed_out_written_is_discarded cfg ops hc ho h1 h2 h3 h4 .wbegin ow rid t o2 o htr hfl hw
+    (by simp) hno hna hq hidle⟩
+  have e : h1 ++ (Op.wbegin, ow) :: h2 = h1 ++ ([(Op.wbegin, ow)] ++ h2) := by simp
+  rw [writeInProgress, e, accAfter_append, accAfter_append]
+  have hno2 : ∀ p ∈ h2, p.1 ≠ .reopen := fun p hp => hno p (List.mem_append_left _ hp)
+  have key : ∀ (h : List (Op × Obs)) (a : Acc), (∀ p ∈ h, p.1 ≠ .wend) → (∀ p ∈ h, p.1 ≠ .reopen) →
+      a.inprog = true → (accAfter a h).inprog = true := by
+    intro h
+    induction h with
+    | nil => intro a _ _ ha; exact ha
+    | cons q h ih =>
+      intro a hb hn ha
+      simp only [accAfter, List.foldl_cons]
+      refine ih _ (fun x hx => hb x (List.mem_cons_of_mem _ hx)) (fun x hx => hn x (List.mem_cons_of_mem _ hx)) ?_
+      rw [after_inprog]
+      have b1 := hb q (by simp)
+      have b2 := hn q (by simp)
+      obtain ⟨op, o'⟩ := q
+      cases op <;> first | exact ha | rfl | exact absurd rfl b1 | exact absurd rfl b2
+  exact key h2 _ hblocked hno2 rfl
+
+open Scales.TagPool in
+/-- non-vacuity: request 0 (with a deadline) blocks in its write, request 1 queues up behind it,
+    the deadline fires while the write is blocked, the callback queues the Tdiscarded behind
+    request 1, the write returns, request 1 and the Tdiscarded go out -/
+example : comp.wf ⟨2 ^ 24 - 1, .thriftmux⟩
+    [.req .ev 0, .wbegin, .req .noev 0, .quiet, .fire 0, .notify 0, .quiet, .wend, .send, .send, .quiet] = true := by
+  decide
+
+open Scales.TagPool in
+example : (comp.modelTrace ⟨2 ^ 24 - 1, .thriftmux⟩
+    [.req .ev 0, .wbegin, .req .noev 0, .quiet, .fire 0, .notify 0, .quiet, .wend, .send, .send, .quiet]).map
+      (fun p => (p.2.wrote, p.2.qlen)) =
+    [([], 1), ([⟨.req, 2, 0⟩], 0), ([], 1), ([], 1), ([], 1), ([], 2), ([], 2), ([], 2),
+     ([⟨.req, 3, 1⟩], 1), ([⟨.discard, 0, 2⟩], 0), ([], 0)] := by
+  decide
+
+open Scales.TagPool in
+/-- the same on Kafka: `_OnTimeout` is a no-op, nothing is queued, the tag stays leased -/
+example : (comp.modelTrace ⟨2 ^ 24 - 1, .kafka⟩
+    [.req .ev 0, .wbegin, .fire 0, .notify 0, .quiet, .wend, .quiet]).map (fun p => (p.2.wrote, p.2.qlen, p.2.tagmap)) =
+    [([], 1, [2]), ([⟨.req, 2, 0⟩], 0, [2]), ([], 0, [2]), ([], 0, [2]), ([], 0, [2]), ([], 0, [2]), ([], 0, [2])] := by
+  decide
+
+open Scales.TagPool in
+/-- what a transport that subscribes to the deadline event only *after* `write` returned shows
+    (seeded/C12-mux-watch-after-write): the deadline fires during the blocked write, no callback
+    ever runs, the frame goes out, no Tdiscarded follows — the specification rejects the history at
+    the first idle moment after the write -/
+theorem C12_mux_watch_after_write_rejected :
+    spec12 ⟨2 ^ 24 - 1, .thriftmux⟩
+      [(.req .ev 0, ⟨.ok, 2, [], [], [2], [], 2, 1⟩),
+       (.wbegin, ⟨.ok, 0, [⟨.req, 2, 0⟩], [], [2], [], 2, 0⟩),
+       (.fire 0, ⟨.ok, 0, [], [], [2], [], 2, 0⟩),
+       (.quiet, ⟨.ok, 0, [], [], [2], [], 2, 0⟩),
+       (.wend, ⟨.ok, 0, [], [], [2], [], 2, 0⟩),
+       (.quiet, ⟨.ok, 0, [], [], [2], [], 2, 0⟩)]
+      = .fail "timeout-not-discarded" [V.ofNat 5, V.ofNats [2]] := by
+  rfl
 
 open Scales.FrontEnd in
 /-- Dispatch hop: a call whose deadline has passed when it is dispatched gets TimeoutError at
